@@ -43,8 +43,10 @@ def cluster(monitors, p_events, view_fields=()):
 
 PROPS = {
     "C02": cluster(["C02"], ["campaign", "grant", "win", "stepdown"], ["role", "vote"]),
+    "C03": cluster(["C03"], ["grant", "campaign", "win", "claim"], ["vote"]),
     "C04": cluster(["C04"], ["commitleader", "commitapp", "commithb", "commitclaim", "commitsnap", "ackcommitted", "sendhb", "claim"], ["commit"]),
     "C05": cluster(["C05"], ["lappend", "sendapp", "recvapp", "installsnap", "bootstrap"], ["log"]),
+    "C15": cluster(["C15"], ["sendsnap", "installsnap", "commitsnap", "bootstrap"], []),
     "C06": cluster(["C06"], ["bump", "rdy", "persist", "release", "crash", "restart", "sendapp", "sendhb", "sendsnap"], ["term", "up", "dterm", "dvote", "dlog", "dcommit"]),
     "C11": {
         "stateless": True,
